@@ -23,6 +23,21 @@ pub struct Resp {
     pub panic_location: Option<String>,
     pub panic_message: Option<String>,
     pub which: String,
+    /// digest of the observation (generated text + sorted warnings, or the error display) of the last backend run
+    #[serde(default)]
+    pub digest: String,
+}
+
+pub fn digest_of(o: &Outcome) -> String {
+    match o {
+        Outcome::Ok { generated, warnings } => {
+            let mut w = warnings.clone();
+            w.sort();
+            format!("ok:{:016x}:{}:{:016x}", fnv(generated), generated.len(), fnv(&w.join("\n")))
+        }
+        Outcome::Err(e) => format!("err:{:016x}", fnv(&e.display)),
+        Outcome::Panic { location, .. } => format!("panic:{location}"),
+    }
 }
 
 #[derive(Clone, Debug, PartialEq)]
@@ -53,7 +68,7 @@ pub fn worker_main() {
         };
         // run on a thread with the default main-thread stack size of a build script (8 MiB)
         let handle = std::thread::Builder::new().stack_size(8 << 20).spawn(move || {
-            let mut last = Resp { class: "ok".into(), panic_location: None, panic_message: None, which: String::new() };
+            let mut last = Resp { class: "ok".into(), panic_location: None, panic_message: None, which: String::new(), digest: String::new() };
             let backends: Vec<&str> = match req.backend.as_str() {
                 "both" => vec!["rasn", "ts"],
                 "ts" => vec!["ts"],
@@ -63,15 +78,15 @@ pub fn worker_main() {
                 let o = if b == "ts" { compile_ts(&[req.text.clone()]) } else { compile_rasn(&[req.text.clone()], &Cfg::default()) };
                 // compile_* already rendered Display + contextualize for errors and warnings
                 if let Outcome::Panic { message, location } = &o {
-                    return Resp { class: "panic".into(), panic_location: Some(location.clone()), panic_message: Some(message.clone()), which: b.into() };
+                    return Resp { class: "panic".into(), panic_location: Some(location.clone()), panic_message: Some(message.clone()), which: b.into(), digest: digest_of(&o) };
                 }
-                last = Resp { class: o.class().into(), panic_location: None, panic_message: None, which: b.into() };
+                last = Resp { class: o.class().into(), panic_location: None, panic_message: None, which: b.into(), digest: digest_of(&o) };
             }
             last
         });
         let resp = match handle.map(|h| h.join()) {
             Ok(Ok(r)) => r,
-            _ => Resp { class: "panic".into(), panic_location: Some("<thread>".into()), panic_message: Some("worker thread failed".into()), which: String::new() },
+            _ => Resp { class: "panic".into(), panic_location: Some("<thread>".into()), panic_message: Some("worker thread failed".into()), which: String::new(), digest: String::new() },
         };
         let _ = writeln!(out, "{}", serde_json::to_string(&resp).unwrap());
         let _ = out.flush();
@@ -141,4 +156,27 @@ pub fn run_isolated(text: &str, backend: &str, timeout: Duration) -> Verdict {
             }
         }
     })
+}
+
+/// Run one input in a brand-new process (fresh RandomState seeds, fresh statics).
+pub fn run_fresh(text: &str, backend: &str, timeout: Duration) -> Verdict {
+    let mut p = match spawn() {
+        Some(p) => p,
+        None => return Verdict::Crashed("cannot spawn worker".into()),
+    };
+    let req = serde_json::to_string(&Req { text: text.to_string(), backend: backend.to_string() }).unwrap();
+    if writeln!(p.stdin, "{req}").and_then(|_| p.stdin.flush()).is_err() {
+        return Verdict::Crashed("worker gone before request".into());
+    }
+    let v = match p.rx.recv_timeout(timeout) {
+        Ok(line) => match serde_json::from_str::<Resp>(&line) {
+            Ok(r) => Verdict::Done(r),
+            Err(e) => Verdict::Crashed(format!("protocol error: {e}")),
+        },
+        Err(std::sync::mpsc::RecvTimeoutError::Timeout) => Verdict::Hang,
+        Err(_) => Verdict::Crashed(p.child.wait().map(|s| format!("{s}")).unwrap_or_default()),
+    };
+    let _ = p.child.kill();
+    let _ = p.child.wait();
+    v
 }
